@@ -677,3 +677,24 @@ Qed.
 Theorem expected_ta_spec md x y z :
   expected_ta 0 md [x; y; z] = Exact (m_fma_ta md x y z) /\ expected_ta 1 md [x; y] = Exact (m_mul_ta md x y).
 Proof. split; reflexivity. Qed.
+
+(* ---------- the recorded class KF_TA_MINNORMAL leaves the demand unchanged ---------- *)
+Theorem expected_ta_kf_required name md args :
+  expect_list (expected_ta_kf name md args) = expect_list (expected_ta name md args) /\
+  (forall k req rcd, expected_ta_kf name md args = Known k req rcd ->
+     k = KF_TA_MINNORMAL /\ req = expected_ta name md args /\
+     exists l, expected_ta name md args = Exact l /\ is_min_normal_inexact l = true /\ rcd = Exact (flip_underflow l)) /\
+  (forall l, expected_ta name md args = Exact l -> is_min_normal_inexact l = false -> expected_ta_kf name md args = Exact l).
+Proof.
+  assert (EX : exists l, expected_ta name md args = Exact l).
+  { unfold expected_ta. destruct name as [|p|p].
+    - destruct args as [|x [|y [|z [|w args]]]]; eexists; reflexivity.
+    - destruct p as [p|p|]; destruct args as [|x [|y [|z args]]]; eexists; reflexivity.
+    - eexists; reflexivity. }
+  destruct EX as [l E]. unfold expected_ta_kf. rewrite E.
+  destruct (is_min_normal_inexact l) eqn:H; cbn [expect_list]; split; [reflexivity| |reflexivity|]; split.
+  - intros k req rcd K. inversion K; subst. repeat split; try reflexivity. exists l. repeat split; try reflexivity. exact H.
+  - intros l0 E0 H0. inversion E0; subst. congruence.
+  - intros k req rcd K. discriminate K.
+  - intros l0 E0 _. inversion E0; subst. reflexivity.
+Qed.
